@@ -59,6 +59,9 @@ type CondAPI struct {
 	mod map[string]time.Time
 	// writes: every applied create / main-resource update, in order
 	writes []WriteRec
+	// deletes: every applied delete, in order; OnDelete is called for each (outside the lock)
+	deletes  []DeleteRec
+	OnDelete func(node, name string)
 }
 
 // ModTime returns when the named object was last created or updated.
@@ -70,6 +73,20 @@ func (a *CondAPI) ModTime(name string) (time.Time, bool) {
 }
 
 // WriteRec is one applied spec write (create or main-resource update).
+// DeleteRec is one applied delete: who removed which condition, and when.
+type DeleteRec struct {
+	Node string
+	Name string
+	At   time.Time
+}
+
+// Deletes returns the log of applied deletes.
+func (a *CondAPI) Deletes() []DeleteRec {
+	a.mu.Lock()
+	defer a.mu.Unlock()
+	return append([]DeleteRec(nil), a.deletes...)
+}
+
 type WriteRec struct {
 	Node string // the writing client's node ("" = the driver acting as a foreign writer)
 	Name string
@@ -274,7 +291,14 @@ func (c *CondClient) Delete(ctx context.Context, name string, opts metav1.Delete
 	a.mu.Lock()
 	_, ok := a.objs[name]
 	delete(a.objs, name)
+	if ok {
+		a.deletes = append(a.deletes, DeleteRec{Node: c.Node, Name: name, At: time.Now()})
+	}
+	hook := a.OnDelete
 	a.mu.Unlock()
+	if ok && hook != nil {
+		hook(c.Node, name)
+	}
 	if out := c.point("post", "delete", name); out != Proceed {
 		return injected(out, "delete", name)
 	}
